@@ -88,7 +88,7 @@ func snapshot(keys [][]byte) held {
 
 func krSeq(r *rng, id string, nops int) {
 	// key pool: mostly valid keys, a few invalid lengths, the empty key
-	lens := []int{16, 16, 16, 24, 32, 16, 0, 15, 17, 33, 1}
+	lens := []int{16, 16, 16, 24, 32, 16, 0, 15, 17, 33, 1, 8, 40, 48, 64, 31}
 	pool := &krPool{}
 	for _, l := range lens {
 		pool.keys = append(pool.keys, r.bytes(l))
